@@ -134,8 +134,10 @@ SerView(kind, it) ==
              \o [i \in DOMAIN rest |-> <<rest[i].k, rest[i].v>>]
              \o << <<nk, Get(it, nk)>> >>
 
-(* An SSC chart is claimed serializable when exactly one of NOTES / NOTES2 is present. *)
-Serializable(kind, it) == kind # "sscchart" \/ (Has(it, "NOTES") # Has(it, "NOTES2"))
+(* An SSC chart is serializable when it has note data (NOTES, else NOTES2); with both    *)
+(* present NOTES is the note data and NOTES2 is written like any other property: the     *)
+(* serialization still shows exactly the mapping's content.                               *)
+Serializable(kind, it) == kind # "sscchart" \/ HasNotes(it)
 
 (* Blank SM chart: the state every SM chart starts from in the model.     *)
 BlankSMChart == [i \in 1..6 |-> [k |-> SMChartFields[i], v |-> ""]]
